@@ -189,14 +189,29 @@ func (e *Exponent) UnmarshalBinary(data []byte) error {
 		return errors.New("can't unmarshal Exponent with no group")
 	}
 	group := e.group
-	size := binary.BigEndian.Uint32(data)
-	e.coefficients = make([]curve.Point, int(size))
-	for i := 0; i < len(e.coefficients); i++ {
-		e.coefficients[i] = group.NewPoint()
+	if len(data) < 4 {
+		return errors.New("exponent: data is too short")
 	}
-	rawExponent := rawExponentData{Coefficients: e.coefficients}
+	size := binary.BigEndian.Uint32(data)
+	// every coefficient takes at least one byte of the encoding, which bounds what we are willing to allocate
+	if uint64(size) > uint64(len(data)-4) {
+		return errors.New("exponent: announced number of coefficients exceeds the data")
+	}
+	coefficients := make([]curve.Point, int(size))
+	for i := 0; i < len(coefficients); i++ {
+		coefficients[i] = group.NewPoint()
+	}
+	rawExponent := rawExponentData{Coefficients: coefficients}
 	if err := cbor.Unmarshal(data[4:], &rawExponent); err != nil {
 		return err
+	}
+	if len(rawExponent.Coefficients) != int(size) {
+		return errors.New("exponent: wrong number of coefficients")
+	}
+	for _, c := range rawExponent.Coefficients {
+		if c == nil {
+			return errors.New("exponent: nil coefficient")
+		}
 	}
 	e.group = group
 	e.coefficients = rawExponent.Coefficients
